@@ -540,10 +540,15 @@ func TestC05Exhaustive(t *testing.T) {
 	case "both":
 		kinds = []string{"match", "single"}
 	}
+	// VERIF_C05_EXH_AMAX (default 6): amounts 1..AMAX; VERIF_C05_EXH_NT (default 4): the first NT of the ticks
+	amax := envInt("VERIF_C05_EXH_AMAX", 6)
+	if nt := envInt("VERIF_C05_EXH_NT", 4); nt >= 1 && nt < len(ticks) {
+		ticks = ticks[:nt]
+	}
 	type pa struct{ p, a int }
 	var opts []pa
-	for p := 0; p < 4; p++ {
-		for a := 1; a <= 6; a++ {
+	for p := 0; p < len(ticks); p++ {
+		for a := 1; a <= amax; a++ {
 			opts = append(opts, pa{p, a})
 		}
 	}
@@ -582,7 +587,7 @@ func TestC05Exhaustive(t *testing.T) {
 				specs = append(specs, c05Spec{buy: false, price: ticks[x.p], amt: amt, offer: amt, batch: 1, id: id})
 				id++
 			}
-			for lp := 0; lp < 4; lp++ {
+			for lp := 0; lp < len(ticks); lp++ {
 				for _, kind := range kinds {
 					if only < 0 || only == ci {
 						c05Dump(tr, ci, c05Run{kind: kind, specs: specs, price: ticks[lp], prec: prec})
